@@ -12,6 +12,13 @@ import vlib
 
 def run(c):
     res = vlib.table_check(c, 'DupSort', 'DupSort.cfg', 'c20', workers=1, tlc_timeout=1500, harness_timeout=3000, jvm=['-Xss512m'])
+    # the same steps on DBIs of several hundred entries with values of very different lengths (pages split and
+    # records move while LS iterates and writes): content against the per-key last-writer-wins reference
+    vlib.absorb(c, vlib.run_harness(['bulk', 'C20'], timeout=600))
+    # settings under which the property cannot hold are refused by Config.Check (what the daemon runs first)
+    _g = vlib.run_harness(['config-gate'], timeout=120)
+    _g['mismatches'] = [m for m in _g['mismatches'] if (m.get('sig') or {}).get('prop') in ('C20', 'conformance')]
+    vlib.absorb(c, _g)
     c.assumptions += ['pools of 9 key shapes x 14 value shapes, all ordered pairs of pairs; other byte values are not enumerated',
                       'empty values of duplicates are subject to finding F3 (C11) and are part of the pools only at the helper level']
     c.extra['rule'] = 'all single pairs and all ordered two-pair contents of the pools on the real helpers; every 37th (thorough: 5th) through a real mirror cycle'
